@@ -110,6 +110,22 @@ def run_validator(text, ack=True, html=False, xml=False, charset=None, source=No
     return o
 
 
+def reader_errors(text):
+    """what the bare X12Reader reports for this text: [(type, code, message, segment id)] in order (independent of the
+    validator's error tree, which is fed from the same list)"""
+    import pyx12.x12file
+    quiet()
+    out = []
+    rd = pyx12.x12file.X12Reader(io.StringIO(text))
+    for seg in rd:
+        for e in rd.pop_errors():
+            out.append((e[0], e[1], e[2], seg.get_seg_id()))
+    rd.cleanup()
+    for e in rd.pop_errors():
+        out.append((e[0], e[1], e[2], None))
+    return out
+
+
 def err_tuples(errors, with_msg=False):
     # canonical order only: any total order will do (fields may be None in one tuple and a number in another)
     return sorted(((e['level'], e['isa'], e['gs'], e['st'], e['seg_id'], e['pos'], e['ele'], e['sub'], e['code'], e['value'] or '') for e in errors),
